@@ -17,9 +17,10 @@ sys.path.insert(0, VERIF)
 EXIT_OK, EXIT_VIOLATION, EXIT_HARNESS = 0, 1, 2
 
 
-def _worker(pid, modname, fnname, kwargs, name, tier, seed, conn):
+def _worker(pid, modname, fnname, kwargs, name, tier, seed, conn, budget=None):
     try:
         import warnings
+        import threading
 
         warnings.filterwarnings("ignore")
         if os.environ.get("VERIF_DEBUG"):
@@ -33,6 +34,27 @@ def _worker(pid, modname, fnname, kwargs, name, tier, seed, conn):
         job = core.Job(name, pid, tier, seed)
         mod = importlib.import_module(modname)
         t0 = time.time()
+
+        def hand_in_what_is_decided():
+            # shortly before the driver's budget runs out: the obligations decided so far are kept (a change that makes an exploration
+            # blow up must not erase the verdicts already reached), everything else of this job is inconclusive
+            try:
+                out = job.export()
+                out["wall"] = round(time.time() - t0, 2)
+                out["timed_out"] = True
+                out.setdefault("errors", []).append("job exceeded %ds" % budget)
+                out["results"] = list(out.get("results", [])) + [
+                    {"id": "%s/*" % name, "status": "inconclusive", "detail": "job time budget exceeded (%d obligations decided before)" % len(out.get("results", [])),
+                     "nontrivial": False, "hash": name, "time": budget}]
+                conn.send(out)
+                conn.close()
+            finally:
+                os._exit(0)
+
+        if budget:
+            timer = threading.Timer(max(5.0, budget - 12.0), hand_in_what_is_decided)
+            timer.daemon = True
+            timer.start()
         try:
             getattr(mod, fnname)(job, **kwargs)
         except core.OutOfReach as e:
@@ -40,6 +62,8 @@ def _worker(pid, modname, fnname, kwargs, name, tier, seed, conn):
         except BaseException as e:  # noqa: a crashed job is a harness error, never a verdict
             job.errors.append("CRASH %s: %s\n%s" % (type(e).__name__, e, traceback.format_exc()[-2500:]))
             job.crashed = True
+        if budget:
+            timer.cancel()
         out = job.export()
         out["wall"] = round(time.time() - t0, 2)
         conn.send(out)
@@ -59,7 +83,7 @@ def run_jobs(pid, jobs, tier, seed, workers, job_timeout):
         while pending and len(running) < workers:
             name, modname, fnname, kwargs = pending.pop(0)
             parent, child = ctx.Pipe(duplex=False)
-            p = ctx.Process(target=_worker, args=(pid, modname, fnname, kwargs, name, tier, seed, child))
+            p = ctx.Process(target=_worker, args=(pid, modname, fnname, kwargs, name, tier, seed, child, job_timeout))
             p.start()
             child.close()
             running.append((name, p, parent, time.time()))
